@@ -392,6 +392,14 @@ def run_sites(ctx, case):
     ctx.case(case, True, labels=(site, "valid" if valid else "refused"))
 
 
+def enum_site_pairs(tier):
+    for site in SITE_NAMES:
+        for a in PAIR_CHARS:
+            for b in PAIR_CHARS:
+                for s in (a + b, "ab" + a + b, a + b + "ab", a + "ab" + b):
+                    yield {"site": site, "s": [ord(c) for c in s]}
+
+
 SUBS = [
     Sub("write-exhaustive", run_write_enum, kind="enum", enumerate=enum_write, shards=(4, 16),
         rule="every cp1252 char + 12 non-encodable code points x position x width x boundary lengths (finite product, enumerated completely)"),
@@ -403,6 +411,9 @@ SUBS = [
         rule="Atheris/libFuzzer driving the read-bytes Hypothesis test through fuzz_one_input (library instrumented)"),
     Sub("fuzz:write-text", run_write_text, kind="fuzz", fuzz_target=("hypothesis", "write-text"), budget=(0, 200000), shards=(1, 2),
         rule="Atheris/libFuzzer driving the write-text Hypothesis test through fuzz_one_input (library instrumented)"),
+    Sub("block-sites-pairs", run_sites, kind="enum", enumerate=enum_site_pairs, shards=(4, 16),
+        rule="each of the 9 string sites x every ordered pair of 28 characters that codecs / escapes / line-ending handling / trimming treat specially x 4 placements "
+             "(finite product, enumerated completely): write, exact bytes, read back, read back with garbage behind the terminator"),
     Sub("block-sites", run_sites, strategy=sites_strategy, budget=(1500, 40000), shards=(2, 16),
         rule="each of the 9 string fields of item classes / table entries with text of width-1 (must store, next field intact), >= width or non-cp1252 (ValueError)"),
 ]
